@@ -1,5 +1,5 @@
 (* ipow and upowmod *)
-From C17 Require Import Model Model2 Proofs ProofsLib ProofsArith ProofsBits ProofsConv ProofsShift ProofsMisc ProofsDiv.
+From C17 Require Import Model Model2 Proofs ProofsLib ProofsArith ProofsMul ProofsBits ProofsConv ProofsShift ProofsMisc ProofsDiv.
 From Coq Require Import ZifyBool.
 Local Open Scope Z_scope.
 Ltac Zify.zify_post_hook ::= Z.div_mod_to_equations.
